@@ -633,7 +633,7 @@ func UNewTarget(t reflect.Type, init string) reflect.Value {
 // ops
 
 func unfDepths(u *gotype.Unfolder) string {
-	d := u.VerifDepths()
+	d := hookUnfDepths(u)
 	ss := make([]string, len(d))
 	for i, x := range d {
 		ss[i] = strconv.Itoa(x)
